@@ -294,7 +294,7 @@ def run_property(prop, tier, jobs, level_note='', assumptions=(), outside=(), wo
             'obligations': tot('obligations'), 'discharged': tot('discharged'),
             'solver_checks': tot('checks'), 'solver_time_s': round(tot('solver_time'), 2), 'cpu_s': round(tot('cpu'), 1),
             'unsupported_paths': tot('unsupported'), 'aborted_paths': tot('aborted'),
-            'solver_unknown_answers_retried_in_a_fresh_solver': tot('solver_retries'), 'solver_unknown_after_retry': tot('solver_unknown'),
+            'solver_unknown_answers_retried_in_a_fresh_solver': tot('solver_retries'), 'obligations_unknown_after_retry': tot('solver_unknown'), 'branch_queries_left_undecided_and_explored': tot('branch_unknown'), 'obligations_discharged_by_cvc5_after_z3_gave_up': tot('by_cvc5'),
             'exhaustive': not unfinished,
             'explanation': 'bounded symbolic execution of the real code (pathsym + z3 QF_LIA); every path of every listed shape, '
                            'all integer values at once; states = paths, transitions = branch decisions and solver queries',
